@@ -276,6 +276,25 @@ func genCases(rnd *rand.Rand, thorough bool) []mon.CaseSpec {
 				}
 			}
 		}
+		// ---- concurrent best-effort senders racing for the last queue slots
+		for _, o := range sendObjs() {
+			if sendFam[o.proto] != "queue" || o.obj != "sock" {
+				continue
+			}
+			s := spec{Kind: "be-multi", Proto: o.proto, Obj: "sock", Op: "send", Peer: []string{"none", "vt"}[rnd.Intn(2)], NPipes: 1, Q: []int{1, 2, 4}[rnd.Intn(3)],
+				State: []string{"empty", "partial", "full"}[rnd.Intn(3)], K: 2 + rnd.Intn(7), WithDL: rnd.Intn(3) == 0, DUs: 50000}
+			add(s)
+		}
+		for _, o := range sendObjs() {
+			if sendFam[o.proto] != "queue" || o.obj != "sock" {
+				continue
+			}
+			rr := 400
+			if thorough {
+				rr = 1500
+			}
+			add(spec{Kind: "be-race", Proto: o.proto, Obj: "sock", Op: "send", Peer: "none", Q: []int{1, 1, 2, 3}[rnd.Intn(4)], K: rr})
+		}
 		// ---- a completed Send's deadline must not end the Recv that follows
 		for _, o := range staleObjs() {
 			add(spec{Kind: "stale", Proto: o.proto, Obj: o.obj, Op: "send+recv", Peer: "real", Tr: "inproc", DUs: []int64{5000, 20000}[rnd.Intn(2)], NPipes: 1})
@@ -344,6 +363,10 @@ func runCase(c *mon.Case, sp spec) {
 		runFNPLeave(c, sp)
 	case "stale":
 		runStale(c, sp)
+	case "be-multi":
+		runBEMulti(c, sp)
+	case "be-race":
+		runBERace(c, sp)
 	default:
 		panic("unknown kind " + sp.Kind)
 	}
